@@ -3,7 +3,7 @@ Negative results about the PINNED tree (before repairs F2/F3), kept so that what
 on the pinned worker protocol (Model/PipePinned.lean) there are schedules under which (C03) a chunk is lost or exported
 untransformed, (C14) a worker transforms a block of a buffer the I/O thread has not handed over, and (C04) the system
 deadlocks. Each is a concrete schedule evaluated by the kernel. These are not among the 18 property files; they document the
-defects recorded as `fixed` in known_findings.json (F2).
+defects recorded as `fixed` in known_findings.json (F2, F8, F9).
 -/
 import Wencry.Model.PipePinned
 import Wencry.Model.Getopt
@@ -59,5 +59,26 @@ theorem pinned_getopt_cursor_survives :
   decide +kernel
 
 end getopt
+
+/-! ### C17 on the pinned number parsing (before repair F9): `atoi` narrows the `long` of `strtol` to `int` -/
+section atoi
+open Wencry.Model.Cli
+
+/-- `(int)v` for a `long` v -/
+private def toInt32 (v : Int) : Int := let r := v % 4294967296; if r ≥ 2147483648 then r - 4294967296 else r
+/-- the pinned `atoi`: `strtol` clamped to the `long` range, then narrowed to `int` -/
+private def atoiPinned (s : Bytes) : Int :=
+  let v := atoi s
+  toInt32 (if v > 9223372036854775807 then 9223372036854775807 else if v < -9223372036854775808 then -9223372036854775808 else v)
+
+/-- `--cmode 4294967297` passed the range check as mode 1 and `--cmode -99999999999999999999` as mode 0 on the pinned tree; the repaired
+    code (the model's `atoi` on unbounded integers, values beyond `int` invalid) rejects both -/
+theorem pinned_mode_number_truncated :
+    checkCtype (atoiPinned [52, 50, 57, 52, 57, 54, 55, 50, 57, 55]) = true ∧ atoiPinned [52, 50, 57, 52, 57, 54, 55, 50, 57, 55] = 1 ∧
+    checkCtype (atoiPinned ([45] ++ List.replicate 20 57)) = true ∧
+    checkCtype (atoi [52, 50, 57, 52, 57, 54, 55, 50, 57, 55]) = false ∧ checkCtype (atoi ([45] ++ List.replicate 20 57)) = false := by
+  decide +kernel
+
+end atoi
 
 end Wencry.Props.Pinned
